@@ -309,6 +309,7 @@ pub fn world_cfg(id: &str, mode: Mode) -> Cfg {
         digest: id == "C09",
         strict_loopback: false,
         shallow_clone: false,
+        clone_panics: 0,
     }
 }
 
